@@ -36,6 +36,12 @@ def main():
         # used while other work is reading /repo.  The registered procedure (apply to /repo, run, restore) is the default.
         in_worktree = True
         args.remove("--worktree")
+    no_confirm = False
+    if "--no-confirm" in args:
+        # skip step 1 (scratch worktree: demo without / tests / demo with): for changes that were confirmed before and are only
+        # re-run against the checks
+        no_confirm = True
+        args.remove("--no-confirm")
     if "--tier" in args:
         i = args.index("--tier")
         tier = args[i + 1]
@@ -55,7 +61,13 @@ def main():
         sys.exit(2)
     wt = tempfile.mkdtemp(prefix="mt-", dir="/tmp")
     os.rmdir(wt)
+    if no_confirm:
+        rc, o = sh(f"git apply --check {patch}", cwd=REPO)
+        out["applies"] = rc == 0
+        out["confirm_skipped"] = True
     try:
+        if no_confirm:
+            raise StopIteration
         rc, o = sh(f"git worktree add -q --detach {wt} HEAD", cwd=REPO)
         assert rc == 0, o
         env = dict(os.environ, PYTHONPATH=wt, PYTHONDONTWRITEBYTECODE="1")
@@ -74,9 +86,12 @@ def main():
                 rc1, o1 = sh([PY, demo], cwd=wt, env=env, timeout=600)
                 out["demo_with"] = rc1
                 out["demo_output_with"] = o1[-600:]
+    except StopIteration:
+        pass
     finally:
-        sh(f"git worktree remove --force {wt}", cwd=REPO)
-        shutil.rmtree(wt, ignore_errors=True)
+        if not no_confirm:
+            sh(f"git worktree remove --force {wt}", cwd=REPO)
+            shutil.rmtree(wt, ignore_errors=True)
     confirmed = out.get("applies") and out.get("tests_pass_with") and out.get("demo_without") == 0 and out.get("demo_with") == 1
     out["confirmed"] = bool(confirmed)
     results = {}
